@@ -505,4 +505,21 @@ example : ofConn 1 (runTagged exCfg (fun _ => init)
   decide
 
 
+/-- **A client object entered again starts from nothing.**  Whatever the previous connection on the same object left
+behind - bytes of an unfinished character, an unterminated line, a dead reader, a negotiated version - the outputs of
+every later connection are those of a fresh client fed that connection's reads alone. -/
+theorem c05_sessions_independent (cfg : Cfg μ) (ss : List (List Ev)) :
+    ∀ prev : St, runSessions cfg prev ss = ss.map (fun evs => (run cfg init evs).2) := by
+  induction ss with
+  | nil => intro prev; simp [runSessions]
+  | cons evs rest ih =>
+    intro prev
+    simp only [runSessions, List.map_cons, enter]
+    rw [ih]
+
+/-- the child of the first connection dies inside `é` after an unterminated fragment; the second connection's
+line is delivered as written -/
+example : runSessions exCfg init [[.chunk [123, 0xC3]], [.chunk [91, 93, 10]]] = [[], (run exCfg init [.chunk [91, 93, 10]]).2] := by
+  rw [c05_sessions_independent]; decide
+
 end Verif.Props.C05
